@@ -81,12 +81,12 @@ def correspondence(v, pid, progs, exe, model_exe, label="generated"):
     t0 = time.time()
     mout = corr.run_model(model_exe, "sig", progs)
     # programs that exhaust the default nesting fuel get one more chance with a deep budget
-    deep = [k for k, m in enumerate(mout) if m.startswith("ERR FUEL")]
+    deep = [k for k, m in enumerate(mout) if m.startswith("ERR FUEL") and progs[k].count(" S ") > 30]   # only the deep-recursion scenarios
     if deep:
         again = corr.run_model(model_exe, "sig", [progs[k] for k in deep], fuel=320)
         for k, m in zip(deep, again):
             mout[k] = m
-    keep = [(p, m) for p, m in zip(progs, mout) if not m.startswith(("ERR FUEL", "ERR UNSUPPORTED", "ERR STACK")) and len(m) < 40000]
+    keep = [(p, m) for p, m in zip(progs, mout) if not m.startswith(("ERR FUEL", "ERR UNSUPPORTED", "ERR STACK", "ERR TIMEOUT")) and len(m) < 40000]
     model_errs = [(p, m) for p, m in zip(progs, mout) if m.startswith(("ERR UAF", "ERR DANGLING", "ERR DOUBLE", "PARSE"))]
     run = [(p, m) for p, m in keep if not m.startswith(("ERR", "PARSE"))]
     iout = corr.run_impl(exe, "sig", [p for p, _ in run])
